@@ -35,6 +35,9 @@ RULES = {
 }
 
 
+ADAPT_ONLY = {"R-err", "R-log", "R-ice", "R-unsafe", "R-lock", "R-gc"}
+
+
 def _apply_rewrites(text, rewrites, where):
     fired = []
     for rw in rewrites:
@@ -42,7 +45,11 @@ def _apply_rewrites(text, rewrites, where):
         if rule not in RULES:
             raise Broken("unknown rewrite rule %s in %s" % (rule, where))
         new, n = re.subn(pat, rep, text, flags=re.S)
-        minimum = rw[3] if len(rw) > 3 else 1
+        # Rules that only ADAPT a construct to the env (error payloads, logging, unsafe blocks, lock guards, rooting,
+        # unreachable!) may match nothing: if the construct is gone the contract decides, if it merely changed shape the
+        # un-adapted text is rejected by Verus (exit 2).  Rules that INSERT specification or restructure control flow
+        # (R-inv, R-ghost, R-iter, R-assert, R-sig, R-ret, ..) must match, or a proof would fail for no semantic reason.
+        minimum = rw[3] if len(rw) > 3 else (0 if rule in ADAPT_ONLY else 1)
         if n < minimum:
             raise Broken("rewrite %s %r no longer applies in %s (source changed shape; check needs maintenance)" % (rule, pat, where))
         text = new
